@@ -17,8 +17,10 @@ def spec_oracle(cfg, r):
         return [("sampling-raised", f"sample() raised {type(r.exception).__name__}: {r.exception}")]
     snaps = r.snaps
     exps = r.proxy.exp_log
-    if len(snaps) != cfg["P"] or len(exps) != cfg["P"]:
-        return [("transition-count", f"{len(snaps)} transitions / {len(exps)} exp evaluations for {cfg['P']} proposals")]
+    if len(snaps) != cfg["P"]:
+        return [("transition-count", f"{len(snaps)} transitions for {cfg['P']} proposals")]
+    if len(exps) != cfg["P"]:
+        exps = [(None, None)] * cfg["P"]       # the code evaluates exp differently: the rule below does not depend on how
     acc = 0
     for k, (s, (x, v)) in enumerate(zip(snaps, exps)):
         u = cfg["us"][k]
@@ -35,7 +37,7 @@ def spec_oracle(cfg, r):
         with numpy.errstate(all="ignore"):
             want_x = numpy.float64(e_cur) - numpy.float64(e_prop)
             want_a = numpy.exp(want_x)
-        if not same_float(want_x, x):
+        if x is not None and not same_float(want_x, x):
             out.append(("energy", f"transition {k}: acceptance exponent {x} is not E_current - E_proposed = {want_x}"))
         want = bool(u < want_a)
         if decided != want:
@@ -66,6 +68,25 @@ def spec_oracle(cfg, r):
     if r.rng.requests != per * cfg["P"]:
         out.append(("rng-pattern", "random numbers requested from sampler.rng deviate from the per-proposal pattern"))
     return out[:4]
+
+
+def balanced_extremes(rnd, cfg):
+    """Scripts misfits and kinetic energies of an HMC run so that misfit and kinetic energy each change by
+    several hundred units per transition while the total energy changes by a few units: exp of either part
+    alone over- or underflows, exp of the total does not."""
+    cur = 800.0 if rnd.random() < 0.5 else 60.0
+    mis, kin = [cur], []
+    for k in range(cfg["P"]):
+        prop = (60.0 if cur > 400 else 800.0) + rnd.randint(-40, 40) / 8.0
+        delta = rnd.choice([-3.0, -1.0, -0.25, 0.5, 2.0])            # E_current - E_proposed
+        dk = delta - (cur - prop)                                    # k_current - k_proposed
+        k_cur = (1.0 if dk < 0 else dk + 1.0) + rnd.randint(0, 8) / 8.0
+        mis.append(prop)
+        kin += [k_cur, k_cur - dk]
+        if cfg["us"][k] < math.exp(delta):
+            cur = prop
+    cfg["mis_script"], cfg["kin_script"] = mis, kin
+    cfg["special"] = 0.0
 
 
 def reuse_case(rnd, wd):
@@ -124,10 +145,13 @@ def run(tier, seed):
     wd = common.tmpdir("c02_")
     lits = sr.source_literals()
     cases, coq, violations, samples, seen = [], [], [], [], set()
-    dist = {"rwmh": 0, "hmc": 0, "accepts": 0, "rejects": 0, "nonfinite_proposals": 0, "tuned": 0}
+    dist = {"rwmh": 0, "hmc": 0, "accepts": 0, "rejects": 0, "nonfinite_proposals": 0, "tuned": 0, "balanced_extreme_energies": 0}
     try:
         for i in range(n):
             cfg = sr.gen_run(rnd, thin=1, maxP=(10 if tier == "quick" else 25))
+            if i % 6 == 3 and cfg["kind"] == "hmc":
+                balanced_extremes(rnd, cfg)
+                dist["balanced_extreme_energies"] += 1
             r = sr.run_impl(cfg, wd)
             cases.append((cfg, r))
             for key, what in spec_oracle(cfg, r):
